@@ -169,7 +169,14 @@ type concCase struct {
 	reqs  func(ls []*logDef) []*creq
 }
 
-func scenarioConc(t *traceWriter, rng *rand.Rand) {
+func scenarioConc(t *traceWriter, rng *rand.Rand)     { scenarioConcSel(t, rng, false) }
+func scenarioConcLogs(t *traceWriter, rng *rand.Rand) { scenarioConcSel(t, rng, true) }
+
+func init() { scenarios["conclogs"] = scenarioConcLogs }
+
+// scenarioConcSel runs the controlled-schedule cases; with onlyMultiLog just the cases whose requests name more
+// than one log (C12: a log's outcomes do not depend on requests naming other logs, under every interleaving).
+func scenarioConcSel(t *traceWriter, rng *rand.Rand, onlyMultiLog bool) {
 	key := genLogKey(rng, "conc-log")
 	tr := newExplicitBranch("trunk", 12, nil, 0)
 	f5 := newExplicitBranch("f5", 12, tr, 5) // shares the first 5 leaves with the trunk
@@ -206,6 +213,24 @@ func scenarioConc(t *traceWriter, rng *rand.Rand) {
 		{"firstUse3", nil, func(ls []*logDef) []*creq {
 			return []*creq{upd(ls[0], tr, 0, 8), upd(ls[0], f5, 0, 6), read(ls[0])}
 		}},
+	}
+	if onlyMultiLog {
+		store5b := func(s *session, ls []*logDef) {
+			s.update(ls[0].id, 0, cpOf(ls[0], tr, 5), [][]byte{}, "class=setup")
+			s.update(ls[1].id, 0, cpOf(ls[1], tr, 2), [][]byte{}, "class=setup")
+		}
+		cases = []concCase{
+			{"differentLogs", store5, func(ls []*logDef) []*creq { return []*creq{upd(ls[0], tr, 5, 8), upd(ls[1], tr, 0, 3)} }},
+			{"differentLogsBothStored", store5b, func(ls []*logDef) []*creq { return []*creq{upd(ls[0], tr, 5, 8), upd(ls[1], tr, 2, 6)} }},
+			{"differentLogsFirstUse", nil, func(ls []*logDef) []*creq { return []*creq{upd(ls[0], tr, 0, 4), upd(ls[1], f5, 0, 7)} }},
+			{"refusedVsOtherLog", store5b, func(ls []*logDef) []*creq { return []*creq{upd(ls[0], f5, 5, 8), upd(ls[1], tr, 2, 2)} }},
+			{"updateVsReadOtherLog", store5b, func(ls []*logDef) []*creq { return []*creq{upd(ls[0], tr, 5, 8), read(ls[1])} }},
+		}
+		cases3 = []concCase{
+			{"twoLogsThree", store5b, func(ls []*logDef) []*creq {
+				return []*creq{upd(ls[0], tr, 5, 8), upd(ls[1], tr, 2, 6), upd(ls[0], tr, 5, 7)}
+			}},
+		}
 	}
 	scratch := scratchDir()
 	defer os.RemoveAll(scratch)
